@@ -548,6 +548,7 @@ func (x *Exec) applyContract(fr *Frame, st *State, cc *ssa.CallCommon, callee *s
 	oldSt := st.clone()
 	oldEnv := env.child()
 	oldEnv.st = oldSt
+	callSnap := oldSt // the state in which the callee is entered (for calls[i].arg.k.field)
 	// frame
 	switch {
 	case ctr.Pure, ctr.HasMod && len(ctr.Modifies) == 1 && ctr.Modifies[0] == "nothing":
@@ -625,7 +626,7 @@ func (x *Exec) applyContract(fr *Frame, st *State, cc *ssa.CallCommon, callee *s
 		}
 	}
 	if ctr.LogCalls {
-		st.calls = append(st.calls, &CallEvent{Kind: "static", Static: callee, Args: args, Results: rs, Desc: key})
+		st.calls = append(st.calls, &CallEvent{Kind: "static", Static: callee, Args: args, Results: rs, Desc: key, Snap: callSnap})
 	}
 	if ctr.Atomic {
 		// the callee enters (and leaves) a critical section of its own
